@@ -16,5 +16,6 @@ CONFIG = {
         "trees are grown from NewFavRaw(nil) (LineID/FolderID equal NLines/NFolders; Root.FavNum is the number of adds); entry types other than board/line/folder and nil Favh entries are not representable",
         "the legacy .fav4 migration path (TryFav4Load) and Load on a non-regular file are out of scope",
         "a crash is the death of the process; the kernel and the file system keep running",
+        "ReadFavrec recurses once per nesting level with no depth limit (FAV_MAXDEPTH is unused): the model has no stack bound; a 168 MB file nested 3,000,000 deep was loaded by the real code without exhausting the goroutine stack (measured once by hand), deeper files were not examined",
     ],
 }
